@@ -140,6 +140,23 @@ def property_checks(inp):
         for q in (1e-4, 1e-6, 1e-8):
             ratio = float(sc.structure_function_vk(q * L0, r0, L0) / sc.structure_function_kolmogorov(q * L0, r0))
             A(("Kolmogorov limit at r/L0=%g" % q, (abs(ratio - 1) - 1.6 * q ** (1. / 3)) , 2e-3))
+        # fine grids: a 7 % step hides between coarse samples, so monotonicity is also checked relative to the local value
+        worst_dec = 0.0
+        for q in [1e-6, 1e-5, 1e-4, 1e-3, 1e-2, 1e-1, 1.0] + list(inp.get("qfine", [])):
+            rf = q * L0 * numpy.linspace(0.8, 1.25, 46)
+            Df = sc.structure_function_vk(rf, r0, L0)
+            worst_dec = max(worst_dec, float(numpy.max(-numpy.diff(Df)) / Df[-1]))
+        A(("non-decreasing on fine grids around r/L0 = 1e-6 .. 1 (relative to the local value)", worst_dec, 1e-5))
+        # the same separations given as integer arrays (pixels, metres counted in whole units) are the same separations
+        worst_int = 0.0
+        for dt in (numpy.int64, numpy.int32, numpy.uint8):
+            ri = numpy.arange(1, 13).astype(dt)
+            for f, a in ((kl.stf_vonKarman, (L0,)), (kl.stf_kolmogorov, ()), (sc.structure_function_vk, (r0, L0)),
+                         (sc.structure_function_kolmogorov, (r0,)), (turb.phase_covariance, (r0, L0))):
+                for rr in (ri, ri[::2], ri.reshape(3, 4), numpy.array(7, dtype=dt)):
+                    vi = numpy.asarray(f(rr, *a), dtype=float); vf = numpy.asarray(f(rr.astype(float), *a), dtype=float)
+                    worst_int = max(worst_int, float(numpy.max(numpy.abs(vi - vf) / numpy.maximum(numpy.abs(vf), 1e-300))) if vi.shape == vf.shape else float("inf"))
+        A(("integer-typed separation arrays give the values of the same separations as floats", worst_int, 1e-12))
         # positive semi-definite covariance matrices
         pts = numpy.array(inp["pts"]) * L0
         dist = numpy.sqrt(((pts[:, None, :] - pts[None, :, :]) ** 2).sum(-1))
@@ -156,7 +173,8 @@ def property_checks(inp):
 def gen_input(rng):
     L0 = rng.loguniform(1, 200.)
     return {"r0": rng.loguniform(0.02, 2.0), "L0": L0, "s": rng.loguniform(0.2, 5),
-            "r": [L0 * rng.loguniform(1e-4, 1e2) for _ in range(6)],
+            "r": [L0 * rng.loguniform(1e-4, 1e2) for _ in range(6)] + [L0 * rng.loguniform(1e-7, 1e-3) for _ in range(3)],
+            "qfine": [rng.loguniform(1e-6, 1.0) for _ in range(3)],
             "pts": [[rng.uniform(-1, 1) * 0.5, rng.uniform(-1, 1) * 0.5] for _ in range(rng.randint(3, 14))]}
 
 
